@@ -30,9 +30,12 @@ def lib_args(dialect):
     return []
 
 
-def run_loop(binfo, scratch, script, dialect, plan_extra=(), chunks=None, eof=None, cpu=25):
+def run_loop(binfo, scratch, script, dialect, plan_extra=(), chunks=None, eof=None, cpu=25, files=None):
     w = scratch.new()
     os.makedirs(os.path.join(w, "sb"))
+    for fn, text in (files or {}).items():
+        with open(os.path.join(w, "sb", fn), "w") as f:
+            f.write(text)
     with open(os.path.join(w, "script"), "w") as f:
         f.write(script)
     line = "stdin ../script"
@@ -47,10 +50,13 @@ def run_loop(binfo, scratch, script, dialect, plan_extra=(), chunks=None, eof=No
     return r
 
 
-def run_batch(binfo, scratch, text, dialect, cpu=25):
+def run_batch(binfo, scratch, text, dialect, cpu=25, files=None):
     w = scratch.new()
     sb = os.path.join(w, "sb")
     os.makedirs(sb)
+    for fn, t in (files or {}).items():
+        with open(os.path.join(sb, fn), "w") as f:
+            f.write(t)
     with open(os.path.join(sb, "batch.as"), "w") as f:
         f.write(text)
     argv = [binfo["aldor"]] + lib_args(dialect) + buildlib.aldor_args() + ["-Ginterp", "batch.as"]
@@ -97,6 +103,7 @@ def gen_session(seed, i, tier):
     bad = rng.choice([0, 0, 10, 20, 30])
     g = sessgen.Gen(rng.fork("forms"), dialect)
     forms = g.generate(n, bad)
+    aux = dict(g.files)
     chunks = [rng.loguniform(1, 64) for _ in range(rng.range(1, 40))] if rng.chance(3, 4) else None
     plan = []
     if rng.chance(2, 3):
@@ -116,7 +123,7 @@ def gen_session(seed, i, tier):
         plan.append("heapbase " + rng.choice(["200000000000", "31000000b000", "2aaa00007000"]))
     final_nl = not rng.chance(1, 5)
     cut = rng.range(1, len(forms)) if rng.chance(1, 2) else None
-    return {"i": i, "dialect": dialect, "forms": forms, "chunks": chunks, "plan": plan, "final_nl": final_nl, "cut": cut}
+    return {"i": i, "dialect": dialect, "forms": forms, "chunks": chunks, "plan": plan, "final_nl": final_nl, "cut": cut, "files": aux}
 
 
 def judge_session(binfo, scratch, s):
@@ -145,7 +152,8 @@ def judge_session(binfo, scratch, s):
         return False
 
     # A: the full session under the seeded delivery and collection schedule
-    a = run_loop(binfo, scratch, script, dialect, s["plan"], s["chunks"])
+    fl = s.get("files") or {}
+    a = run_loop(binfo, scratch, script, dialect, s["plan"], s["chunks"], files=fl)
     acct(a)
     if bad_end(a, "session"):
         return viol, info
@@ -156,7 +164,7 @@ def judge_session(binfo, scratch, s):
     # 1. equivalence with the model and with batch interpretation
     if markers_only(eva) != model:
         viol.append(("markers-differ-from-model", "session printed %s, model says %s" % (markers_only(eva)[:12], model[:12])))
-    b = run_batch(binfo, scratch, sessgen.batch_of(forms, dialect), dialect)
+    b = run_batch(binfo, scratch, sessgen.batch_of(forms, dialect), dialect, files=fl)
     acct(b)
     if bad_end(b, "batch"):
         return viol, info
@@ -167,13 +175,13 @@ def judge_session(binfo, scratch, s):
     if eva != expected_events(forms):
         viol.append(("error-ordering", "events %s, expected %s" % (eva[:16], expected_events(forms)[:16])))
     if info["rejected"]:
-        c = run_loop(binfo, scratch, sessgen.script_of(good_only, dialect, s["final_nl"]), dialect, s["plan"], s["chunks"])
+        c = run_loop(binfo, scratch, sessgen.script_of(good_only, dialect, s["final_nl"]), dialect, s["plan"], s["chunks"], files=fl)
         acct(c)
         if not bad_end(c, "session without rejected forms") and markers_only(events(c.out)) != markers_only(eva):
             viol.append(("rejected-form-left-a-trace", "with rejected forms %s, without %s" % (markers_only(eva)[:12], markers_only(events(c.out))[:12])))
     # 4. schedule independence: canonical delivery, no forced collection
     if s["chunks"] or s["plan"]:
-        d = run_loop(binfo, scratch, script, dialect, (), None)
+        d = run_loop(binfo, scratch, script, dialect, (), None, files=fl)
         acct(d)
         if not bad_end(d, "canonical session") and events(d.out) != eva:
             viol.append(("schedule-dependent", "seeded schedule %s, canonical %s" % (eva[:12], events(d.out)[:12])))
@@ -181,7 +189,7 @@ def judge_session(binfo, scratch, s):
     if s["cut"]:
         k = s["cut"]
         pre = sessgen.script_of(forms[:k], dialect, True)
-        e = run_loop(binfo, scratch, script, dialect, s["plan"], s["chunks"], eof=len(pre.encode()))
+        e = run_loop(binfo, scratch, script, dialect, s["plan"], s["chunks"], eof=len(pre.encode()), files=fl)
         acct(e)
         if not bad_end(e, "session cut after form %d" % k):
             want = expected_events(forms[:k])
@@ -276,7 +284,7 @@ def main(argv):
                     s2 = s3
             rp = vsim.write_replay(PID, "seed%d-s%d" % (seed, i), {
                 "property": PID, "seed": seed, "key": key, "detail": detail, "source_key": binfo["key"],
-                "session": dict((k, s2[k]) for k in ("dialect", "chunks", "plan", "final_nl", "cut")),
+                "session": dict((k, s2.get(k)) for k in ("dialect", "chunks", "plan", "final_nl", "cut", "files")),
                 "forms": [f.to_json() for f in s2["forms"]],
                 "script": sessgen.script_of(s2["forms"], s2["dialect"], s2["final_nl"]),
                 "other_failing_sessions": len(ids) - 1})
